@@ -54,7 +54,7 @@ from voluptuous import Schema, Required, Any, Range, All
 
 from mitxgraders.exceptions import InputTypeError, StudentFacingError
 from mitxgraders.helpers.validatorfuncs import is_callable, Nullable
-from mitxgraders.helpers.calc.mathfuncs import is_nearly_zero
+from mitxgraders.helpers.calc.mathfuncs import is_nearly_zero, safe_norm
 from mitxgraders.helpers.calc.math_array import are_same_length_vectors, is_vector
 from mitxgraders.comparers.baseclasses import Comparer, CorrelatedComparer
 
@@ -357,7 +357,7 @@ def eigenvector_comparer(comparer_params_eval, student_eval, utils):
     expected = eigenvalue * student_eval
     actual = matrix * student_eval
 
-    if utils.within_tolerance(0, np.linalg.norm(student_eval)):
+    if utils.within_tolerance(0, safe_norm(student_eval)):
         return {
             'ok': False,
             'grade_decimal': 0,
@@ -456,7 +456,7 @@ def vector_span_comparer(comparer_params_eval, student_eval, utils):
     # Validate student input shape
     utils.validate_shape(student_eval, comparer_params_eval[0].shape)
 
-    if utils.within_tolerance(0, np.linalg.norm(student_eval)):
+    if utils.within_tolerance(0, safe_norm(student_eval)):
         return {
             'ok': False,
             'grade_decimal': 0,
@@ -472,7 +472,7 @@ def vector_span_comparer(comparer_params_eval, student_eval, utils):
     ols = np.linalg.lstsq(column_vectors, student_eval, rcond=-1)
     # Compute the residual explicitly: lstsq only reports residuals for
     # overdetermined, full-rank systems (and returns an empty array otherwise)
-    error = np.linalg.norm(column_vectors.dot(ols[0]) - np.asarray(student_eval))
+    error = safe_norm(column_vectors.dot(ols[0]) - np.asarray(student_eval))
 
     # Check that error is nearly zero, using student_eval as a reference
     # when tolerance is specified as a percentage
@@ -537,8 +537,8 @@ def vector_phase_comparer(comparer_params_eval, student_eval, utils):
 
     in_span = vector_span_comparer(comparer_params_eval, student_eval, utils)
 
-    expected_mag = np.linalg.norm(comparer_params_eval[0])
-    student_mag = np.linalg.norm(student_eval)
+    expected_mag = safe_norm(comparer_params_eval[0])
+    student_mag = safe_norm(student_eval)
     same_magnitude = utils.within_tolerance(expected_mag, student_mag)
 
     return in_span and same_magnitude
